@@ -238,6 +238,21 @@ class SingularityCutter(Worker):
             TriFlagAttr[f] = regions.find(f)
         return regions
 
+    def _bridge_to_unreached_face(self, fvisited, path, dist, queue) -> bool:
+        """The flagged edges (together with the border) may enclose faces that the dual search cannot reach.
+        Crosses one enclosing edge so that the search can resume. Returns False once every face has been reached."""
+        for iF in self.input_mesh.id_faces:
+            if fvisited[iF] : continue
+            for e in self.input_mesh.connectivity.face_to_edges(iF):
+                v1,v2 = self.input_mesh.edges[e]
+                iF2 = self.input_mesh.connectivity.opposite_face(v1,v2,iF)
+                if iF2 is not None and fvisited[iF2]:
+                    path[iF] = e
+                    dist[iF] = dist[iF2]
+                    queue.push(iF, dist[iF])
+                    return True
+        return False
+
     def _build_dual_tree_no_features(self, forbidden_edges:Attribute):
         # Dijsktra on faces (dual edges)
         fvisited = ArrayAttribute(bool, len(self.input_mesh.faces)) #self.input_mesh.faces.create_attribute("cut_visited", bool)
@@ -253,7 +268,7 @@ class SingularityCutter(Worker):
             # Heuristic for distance between two faces
             return distance(barycenters[f1], barycenters[f2])
 
-        while not queue.empty():
+        while not queue.empty() or self._bridge_to_unreached_face(fvisited, path, dist, queue):
             iF = queue.get().x
             if fvisited[iF] : continue
             fvisited[iF] = True                
@@ -261,7 +276,7 @@ class SingularityCutter(Worker):
                 v1,v2 = self.input_mesh.edges[e]
                 if forbidden_edges[e] : continue # edge is on the singularity spanning tree
                 iF2 = self.input_mesh.connectivity.opposite_face(v1,v2,iF)
-                if iF2 is not None: 
+                if iF2 is not None and not fvisited[iF2]: 
                     d = face_distance(iF,iF2)
                     if dist[iF2] > dist[iF] + d :
                         dist[iF2] = dist[iF] + d
@@ -287,7 +302,7 @@ class SingularityCutter(Worker):
             # Heuristic for distance between two faces
             return distance(barycenters[f1], barycenters[f2])
 
-        while not queue.empty():
+        while not queue.empty() or self._bridge_to_unreached_face(fvisited, path, dist, queue):
             iF = queue.get().x
             if fvisited[iF] : continue
             fvisited[iF] = True        
@@ -295,7 +310,7 @@ class SingularityCutter(Worker):
                 v1,v2 = self.input_mesh.edges[e]
                 if forbidden_edges[e] : continue # edge is on the singularity spanning tree
                 iF2 = self.input_mesh.connectivity.opposite_face(v1,v2,iF)
-                if iF2 is not None:
+                if iF2 is not None and not fvisited[iF2]:
                     u,v = set(self.input_mesh.faces[iF]) & set(self.input_mesh.faces[iF2])
                     blocked = self.input_mesh.connectivity.edge_id(u,v) in self.feat_detector.feature_edges and regions.connected(iF,iF2)
                     if not blocked:
